@@ -31,6 +31,7 @@ use crate::bitsink::BitSink;
 use crate::bitsink::MemSink;
 use crate::constant::panic_msg;
 use crate::constant::qlpc::MAX_ORDER as MAX_LPC_ORDER;
+use crate::constant::rice::MAX_RICE_PARAMETER;
 use crate::constant::MAX_CHANNELS;
 use crate::error::verify_range;
 use crate::error::verify_true;
@@ -391,7 +392,10 @@ impl MetadataBlockData {
     /// assert_eq!(&[0x34, 0x56], sink.as_slice());
     /// ```
     pub fn new_unknown(tag: u8, data: &[u8]) -> Result<Self, VerifyError> {
-        verify_range!("tag", tag, 0..=126)?;
+        // 0 is `STREAMINFO`, which is not an unknown block.
+        verify_range!("tag", tag, 1..=126)?;
+        // the length of a metadata block is stored in 24 bits.
+        verify_range!("data.len", data.len(), ..(1usize << 24))?;
         Ok(Self::Unknown {
             typetag: tag,
             data: data.to_owned(),
@@ -828,6 +832,9 @@ impl StreamInfo {
         self.max_frame_size = max_value
             .try_into()
             .map_err(|_| VerifyError::new("min_frame_size", "must be a 32-bit integer."))?;
+        // the fields are stored in 24 bits.
+        verify_range!("min_frame_size", self.min_frame_size, ..(1u32 << 24))?;
+        verify_range!("max_frame_size", self.max_frame_size, ..(1u32 << 24))?;
         verify_true!(
             "min_frame_size",
             self.min_frame_size <= self.max_frame_size,
@@ -896,6 +903,21 @@ impl Frame {
             header.channel_assignment().channels() == subframes.len(),
             "must match to the channel specification in the header"
         )?;
+        for (ch, sf) in subframes.iter().enumerate() {
+            verify_true!(
+                "subframes[{ch}]",
+                sf.block_size() == header.block_size(),
+                "must have the block size specified in the header"
+            )?;
+            if let Some(bits) = header.bits_per_sample() {
+                let side = header.channel_assignment().bits_per_sample_offset(ch);
+                verify_true!(
+                    "subframes[{ch}]",
+                    sf.bits_per_sample() == bits + side,
+                    "must have the bits-per-sample specified in the header"
+                )?;
+            }
+        }
         Ok(Self::from_parts(header, subframes))
     }
 
@@ -1638,7 +1660,12 @@ impl FrameHeader {
         sample_rate: usize,
         offset: FrameOffset,
     ) -> Result<Self, VerifyError> {
+        verify_range!("block_size", block_size, 1..)?;
         verify_block_size!("block_size", block_size)?;
+        match offset {
+            FrameOffset::Frame(n) => verify_range!("offset", u64::from(n), ..(1u64 << 31))?,
+            FrameOffset::StartSample(n) => verify_range!("offset", n, ..(1u64 << 36))?,
+        }
         let block_size_spec = BlockSizeSpec::from_size(block_size as u16);
         let sample_size_spec =
             SampleSizeSpec::from_bits(bits_per_sample as u8).ok_or_else(|| {
@@ -1823,6 +1850,28 @@ pub enum SubFrame {
     Lpc(Lpc),
 }
 
+impl SubFrame {
+    /// Returns the number of samples in the subframe.
+    pub(crate) fn block_size(&self) -> usize {
+        match self {
+            Self::Constant(c) => c.block_size(),
+            Self::Verbatim(c) => c.samples().len(),
+            Self::FixedLpc(c) => c.residual().block_size(),
+            Self::Lpc(c) => c.residual().block_size(),
+        }
+    }
+
+    /// Returns the bits-per-sample of the subframe (including the side-channel bit).
+    pub(crate) fn bits_per_sample(&self) -> usize {
+        match self {
+            Self::Constant(c) => c.bits_per_sample(),
+            Self::Verbatim(c) => c.bits_per_sample(),
+            Self::FixedLpc(c) => c.bits_per_sample(),
+            Self::Lpc(c) => c.bits_per_sample(),
+        }
+    }
+}
+
 impl From<Constant> for SubFrame {
     fn from(c: Constant) -> Self {
         Self::Constant(c)
@@ -1958,6 +2007,7 @@ impl Verbatim {
     /// # }
     /// ```
     pub fn new(samples: &[i32], bits_per_sample: usize) -> Result<Self, VerifyError> {
+        verify_block_size!("samples.len", samples.len())?;
         verify_bps!("bits_per_sample", bits_per_sample)?;
         for v in samples {
             verify_sample_range!("samples", *v, bits_per_sample)?;
@@ -2036,6 +2086,11 @@ impl FixedLpc {
         }
         let warm_up = heapless::Vec::from_slice(warm_up)
             .map_err(|()| VerifyError::new("warm_up", "must be shorter than (or equal to) 4"))?;
+        verify_true!(
+            "residual.warmup_length",
+            residual.warmup_length() == warm_up.len(),
+            "must be identical with the number of warm-up samples"
+        )?;
         let ret = Self::from_parts(warm_up, residual, bits_per_sample as u8);
         Ok(ret)
     }
@@ -2134,6 +2189,17 @@ impl Lpc {
                 "must be shorter than (or equal to) `qlpc::MAX_ORDER`",
             )
         })?;
+        verify_range!("parameters.order", parameters.order(), 1..)?;
+        verify_true!(
+            "warm_up.len",
+            warm_up.len() == parameters.order(),
+            "must be identical with the LPC order"
+        )?;
+        verify_true!(
+            "residual.warmup_length",
+            residual.warmup_length() == warm_up.len(),
+            "must be identical with the number of warm-up samples"
+        )?;
         let ret = Self::from_parts(warm_up, parameters, residual, bits_per_sample as u8);
         ret.verify()?;
         Ok(ret)
@@ -2234,6 +2300,12 @@ impl QuantizedParameters {
         shift: i8,
         precision: usize,
     ) -> Result<Self, VerifyError> {
+        verify_range!("order", order, ..=MAX_LPC_ORDER)?;
+        verify_true!(
+            "coefs.len",
+            coefs.len() == order,
+            "must be identical with `order`"
+        )?;
         let ret = Self::from_parts(coefs, order, shift, precision);
         // `QuantizedParameter` doesn't have a child component, so calling
         // `verify` here is not redundant whereas it incurs redundant checks
@@ -2330,7 +2402,30 @@ impl Residual {
         quotients: &[u32],
         remainders: &[u32],
     ) -> Result<Self, VerifyError> {
-        // Some pre-construction verification
+        // Pre-construction verification: `from_parts` and `verify` assume a
+        // self-consistent partitioning.
+        verify_range!("partition_order", partition_order, ..=15)?;
+        let partition_count = 1usize << partition_order;
+        verify_true!(
+            "rice_params.len",
+            rice_params.len() == partition_count,
+            "must be identical with the number of partitions"
+        )?;
+        verify_range!("block_size", block_size, 1..)?;
+        verify_block_size!("block_size", block_size)?;
+        verify_true!(
+            "block_size",
+            block_size % partition_count == 0,
+            "must be a multiple of the number of partitions"
+        )?;
+        verify_range!(
+            "warmup_length",
+            warmup_length,
+            ..=(block_size / partition_count)
+        )?;
+        for p in rice_params {
+            verify_range!("rice_params", *p as usize, ..=MAX_RICE_PARAMETER)?;
+        }
         let ret = Self::from_parts(
             partition_order as u8,
             block_size,
